@@ -164,6 +164,31 @@ func ttlCase(w *W, idx int) {
 			r.judged = returned < old-int64(150*time.Millisecond)
 		}
 	}
+	// the transaction-level accessor: Set stamps now+ttl itself (nothing is returned), TTL reports what is left
+	for i := 0; i < 5; i++ {
+		r := insert("set-through-txn", 0)
+		t0 := time.Now()
+		c.Query(func(txn *column.Txn) error {
+			return txn.QueryAt(r.off, func(column.Row) error { txn.TTL().Set(time.Hour); return nil })
+		})
+		t1 := time.Now()
+		v, ok := readExpire(c, r.off)
+		if !ok || v < t0.Add(time.Hour).UnixNano() || v > t1.Add(time.Hour).UnixNano() {
+			fail(fmt.Sprintf("row %d: Txn.TTL().Set(1h) issued between %d and %d stored deadline (%d,%v)", r.off, t0.UnixNano(), t1.UnixNano(), v, ok))
+		}
+		r.deadline, r.mustLive = v, true
+		c.Query(func(txn *column.Txn) error {
+			return txn.QueryAt(r.off, func(row column.Row) error {
+				left, has := txn.TTL().TTL()
+				left2, has2 := row.TTL()
+				at, has3 := txn.TTL().ExpiresAt()
+				if !has || !has2 || !has3 || left <= 58*time.Minute || left > time.Hour || left2 <= 58*time.Minute || left2 > time.Hour || at.UnixNano() != v {
+					fail(fmt.Sprintf("row %d with deadline %d: Txn.TTL().TTL()=(%s,%v) Row.TTL()=(%s,%v) ExpiresAt()=(%d,%v)", r.off, v, left, has, left2, has2, at.UnixNano(), has3))
+				}
+				return nil
+			})
+		})
+	}
 	// Set and Extend in ONE transaction on a row that already has a committed deadline: now+2h+1h
 	for i := 0; i < 5; i++ {
 		r := insert("set-then-extend", time.Hour)
